@@ -24,3 +24,5 @@ def run(F, rep):
     rep.run(common.run_kmer_lemmas, F, rep, {"bucket", "canon"})
     rep.run(dt_seq.kmer_iter_tables, F, rep, "C05.8")
     rep.run(lemmas.kmer_iter_e2e_lemmas, F, rep, "L-iter")
+    # reads may be handed over as views (forward or reverse-complemented, at any offset of a packed store): the k-mers the filter\n    # sees are read through Vmer::get_kmer on them
+    rep.run(common.run_store_kmer_lemmas, F, rep, "C05.9")
